@@ -44,6 +44,11 @@ def yields_component(fl, f, R, oid, site, multi_ok=True):
             why.append('yield %s is not a (name, array) pair' % unparse(y.value_ast))
             continue
         X = at.args[1]
+        # an attribute assigned earlier in this call stands for the value it was given
+        for e in fl.events[:fl.events.index(y)]:
+            if e.kind == 'store' and not e.loops and not [g for g in e.guards if not validated(g)] and \
+                    isinstance(e.target, RF) and fl.tab.equal(e.target, X) and isinstance(e.value, RF):
+                X = e.value
         last = None
         for e in fl.events:
             if e is y:
@@ -52,14 +57,21 @@ def yields_component(fl, f, R, oid, site, multi_ok=True):
                 last = e
         ok = last is not None and fl.tab.equal(last.value, X) and last.loops == y.loops and \
             [(g.node, g.positive) for g in last.guards] == [(g.node, g.positive) for g in y.guards]
-        if not ok and not single:
+        if not ok and isinstance(y.value_ast, ast.Tuple) and unparse(y.value_ast.elts[1]) == 'self.sigma_xsec':
+            # the attribute itself is yielded: it has to have been (re)built in this call, unconditionally
+            mine = [e for e in fl.events[:fl.events.index(y)] if e.kind == 'store' and fmt(fl, e.target) == 'self.sigma_xsec'
+                    and not e.loops and not [g for g in e.guards if not validated(g)]]
+            ok = bool(mine)
+        if not ok:
+            # (a single unconditional yield is no exception: model_full_contrib() integrates after the yield without
+            #  going through prepare(), so contribute() would read whatever an earlier evaluation left in sigma_xsec)
             why.append('component %s yielded without self.sigma_xsec = <that array>' %
                        unparse(y.value_ast))
         if not ok and len(ys) == 1 and not single:
             why.append('the only component is yielded conditionally (%s)' % [g.text() for g in y.guards if not validated(g)])
     R.check(oid, 'DOM', site,
             'each yielded component is what contribute() will use (self.sigma_xsec assigned '
-            'to it before the yield, or a single unconditional yield)',
+            'to it before the yield)',
             not why, key='; '.join(why), detail='; '.join(why), loc=f.loc(ys[0].node))
 
 
@@ -238,6 +250,8 @@ def _run(ix, R):
         with R.guard('4.comp', 'DOM', f.site, 'yielded component is exposed'):
             fl = mkflow(ix, f, MT)
             yields_component(fl, f, R, '4.comp', f.site)
+    from rules.common import prepare_each_state
+    prepare_each_state(ix, R, '4.state')
     if n < 7:
         R.error('4.impls', 'DOM', CD, 'at least the seven confirmed prepare_each implementations exist',
                 'found %d' % n)
